@@ -200,6 +200,9 @@ func (it *Interp) callResolved(st *State, at ssa.Instruction, fn *ssa.Function, 
 	if it.Hooks.Call != nil {
 		it.Hooks.Call(st, at, fn, args)
 	}
+	if it.Hooks.Args != nil {
+		args = it.Hooks.Args(fn, args)
+	}
 	it.CallSites = append(it.CallSites, at)
 	v, out := it.CallFunction(st, fn, args, bind)
 	it.CallSites = it.CallSites[:len(it.CallSites)-1]
